@@ -117,7 +117,7 @@ Definition decode (bs : list N) : option (msg * list N) :=
   match decode_r bs with DOk m r => Some (m, r) | _ => None end.
 
 (** repeated Wire.Read on one stream, as Client.read / Server.readWrite do: the messages read until
-    the first error, and how it ended ([None] = clean end of stream exactly at a frame boundary). *)
+    the first error, and how it ended ([EndClean] = end of stream exactly at a frame boundary). *)
 Inductive dend := EndClean | EndBadMagic (got : N) | EndShort.
 
 Fixpoint decode_many (fuel : nat) (bs : list N) : list msg * dend :=
